@@ -131,9 +131,11 @@ def run(ctx, prop):
         drive_and_validate(ctx, prop, "replay", ["-mode", "abstract", "-seed", s, "-in", simulate(ctx, 300, s)])
         drive_and_validate(ctx, prop, "random", ["-mode", "random", "-seed", s, "-n", 400, "-size", 12])
         drive_and_validate(ctx, prop, "flags", ["-mode", "flags", "-seed", s, "-n", 1, "-size", 10])
+        drive_and_validate(ctx, prop, "bulk", ["-mode", "bulk", "-seed", s, "-n", 8, "-size", 2500])      # zstd, lz4 x 4 levels, chunks of 1 MiB
         drive_and_validate(ctx, prop, "asm", ["-mode", "asm", "-seed", s, "-n", 300, "-size", 10])
         drive_and_validate(ctx, prop, "asmreplay", ["-mode", "abstract", "-seed", s + 7, "-in", simulate(ctx, 100, s + 7, "Writer_sim_asm.cfg")])
     else:
+        drive_and_validate(ctx, prop, "bulk", ["-mode", "bulk", "-seed", s, "-n", 27, "-size", 6000])
         for k in range(4):
             drive_and_validate(ctx, prop, "asm%d" % k, ["-mode", "asm", "-seed", s * 1000 + k, "-n", 1500, "-size", 8 + 6 * k])
         drive_and_validate(ctx, prop, "asmreplay", ["-mode", "abstract", "-seed", s + 7, "-in", simulate(ctx, 1500, s + 7, "Writer_sim_asm.cfg")])
@@ -142,6 +144,14 @@ def run(ctx, prop):
         for k in range(8):
             drive_and_validate(ctx, prop, "random%d" % k, ["-mode", "random", "-seed", s * 1000 + k, "-n", 1500, "-size", 14 + 4 * k])
         drive_and_validate(ctx, prop, "flags", ["-mode", "flags", "-seed", s, "-n", 3, "-size", 12])
+    if prop == "C08":
+        # the Info clause: Info on fresh Readers and inside Reader sessions exported by TLC from ReaderSession.tla
+        # (Info after filtered / ordered / unindexed reads on the same Reader), judged by TraceIndexed.JudgeInfo
+        import indexfam
+        indexfam.drive(ctx, prop, "info", ["-mode", "writer", "-seed", s, "-n", 150 if ctx.tier == "quick" else 2000, "-reads", 2,
+                                           "-sessions", indexfam.sessions(ctx), "-nsess", 6])
+        indexfam.drive(ctx, prop, "inforand", ["-mode", "rand", "-seed", s, "-n", 20 if ctx.tier == "quick" else 300, "-reads", 2,
+                                               "-sessions", indexfam.sessions(ctx), "-nsess", 6])
     ctx.assumptions += [
         "refmcap (independent decoder written from the MCAP specification) and the abstraction alpha (interning by byte equality, order embedding of timestamps) are trusted",
         "CRC-32 arithmetic (hash/crc32) and the zstd/lz4 codecs are trusted; the specification decides ranges, sizes and relations",
